@@ -117,6 +117,21 @@ var c20Items = []c20Item{
 		}
 		return out
 	}},
+	{"second :path, first one empty", func(fs []ref.Field) []ref.Field {
+		out := addPseudo(":path", "/second")(fs)
+		for i := range out {
+			if out[i].Name == ":path" {
+				out[i].Value = ""
+				break
+			}
+		}
+		return out
+	}},
+	{"second :path, empty", addPseudo(":path", "")},
+	{"second :path with another value", addPseudo(":path", "/second")},
+	{"second :method with another value", addPseudo(":method", "DELETE")},
+	{"second :scheme with another value", addPseudo(":scheme", "http")},
+	{"second :authority with another value", addPseudo(":authority", "other.example")},
 	{"repeated regular field", func(fs []ref.Field) []ref.Field {
 		return append(fs, ref.Field{Name: "x-rep", Value: "1"}, ref.Field{Name: "x-rep", Value: "2"})
 	}},
